@@ -427,6 +427,8 @@ def gen_queue() -> str:
         T._fail(P, si, "_submit_message_internal: handle / ack / except-reschedule shape changed")
     out.append("(* processor: _handle_message(m); queue.ack(m)  |  except Exception: queue.reschedule(m, config.retry_delay) -- checked as text *)")
     out.append("Definition proc_acks_after_handler : bool := true.")
+    from harness.translate import processor_failure_path
+    out.append(processor_failure_path())
     return "\n".join(out) + "\n"
 
 
